@@ -24,6 +24,14 @@ impl StructType {
     }
 }
 
+#[cfg(feature = "verif")]
+impl Hash for StructType {
+    fn hash<H: std::hash::Hasher>(&self, state: &mut H) {
+        crate::verif::ordered_keys(&self.0).hash(state)
+    }
+}
+
+#[cfg(not(feature = "verif"))]
 impl Hash for StructType {
     fn hash<H: std::hash::Hasher>(&self, state: &mut H) {
         self.0.keys().collect::<Box<[&Arc<str>]>>().hash(state)
